@@ -1,5 +1,5 @@
 (** C15 (retained messages) — pinned statements.  Only [Theorem .. exact ..]. *)
-From Rumqtt Require Import Router.RetainedReplay Topic.Spec.
+From Rumqtt Require Import Router.RetainedReplay Router.RetainedReqs Topic.Spec.
 From Coq Require Import Permutation.
 
 Theorem c15_retain_map : forall t d m,
@@ -89,6 +89,31 @@ Theorem c15_replay_flagged : forall cfg st id rq st' rq' status o,
      Forall2 (fun d n => exists p' pr', n = NForward None p' pr' /\ same_msg (dr_qos rq) (fst d) p' /\ p_retain p' = true) sel ns_ret /\
      Forall is_live_fwd ns_live).
 Proof. exact reachable_replay_exact. Qed.
+
+Theorem c15_replay_every_request : forall cfg st id t rq st' rq' status o,
+  reachable cfg st -> slab_get (r_trackers st) id = Some t -> In rq (tr_reqs t) ->
+  forward_device_data st id rq = Ok (st', rq', status) -> get_obuf st id = Ok o ->
+  (dr_fwd_retained rq = false /\ dr_fwd_retained rq' = false /\
+   exists ns_live tail,
+     out_of st' (o_link o) = out_of st (o_link o) ++ ns_live ++ tail /\
+     (tail = [] \/ tail = [NUnschedule]) /\ Forall is_live_fwd ns_live) \/
+  (dr_fwd_retained rq = true /\ dr_group rq = None /\
+   let slots := if dr_qos rq =? 0 then cf_max_outgoing (r_cfg st) else MAX_INFLIGHT - lenN (o_inflight o) in
+   ((status = SInflightFull /\ st' = st /\ rq' = rq) \/
+    (dr_fwd_retained rq' = false /\
+     exists st1 rs ns_ret ns_live tail,
+       read_retained st (dr_filter rq) = Ok (st1, rs) /\
+       Permutation.Permutation rs (map snd (matching_retained (dr_filter rq) (dl_retained (r_datalog st)))) /\
+       out_of st' (o_link o) = out_of st (o_link o) ++ ns_ret ++ ns_live ++ tail /\
+       (tail = [] \/ tail = [NUnschedule]) /\
+       Forall2 (fun d n => exists p' pr', n = NForward None p' pr' /\ same_msg (dr_qos rq) (fst d) p' /\ p_retain p' = true)
+               (firstnN slots rs) ns_ret /\
+       Forall is_live_fwd ns_live))).
+Proof. exact reachable_request_replay. Qed.
+
+Theorem c15_requests_invariant : forall cfg st,
+  reachable cfg st -> ReqInv st.
+Proof. exact reachable_ReqInv. Qed.
 
 Theorem c15_replay_matches : forall st f st1 rs,
   read_retained st f = Ok (st1, rs) ->
